@@ -142,6 +142,9 @@ func Exec(rig *Rig, sc *Scenario, pre *State, a Action) (*State, *StepResult) {
 		res = w.EndBlock()
 		post.Height++
 		post.Time++
+		if a.TimeStep > 1 {
+			post.Time += a.TimeStep - 1
+		}
 		post.Msgs = 0
 	case a.Mod != nil:
 		res = w.ModCall(a.TxHash, a.Mod)
